@@ -438,6 +438,170 @@ def exception_as_value():
         int("x")
     except ValueError as e:
         return type(e).__name__
+
+def handler_order_first_match():
+    try:
+        [][1]
+    except KeyError:
+        return "key"
+    except IndexError:
+        return "index"
+    except Exception:
+        return "any"
+
+def handler_tuple_and_superclass():
+    out = []
+    for bad in (lambda: {}["k"], lambda: [][0], lambda: 1 / 0, lambda: int("x")):
+        try:
+            bad()
+        except (KeyError, IndexError):
+            out.append("lookup")
+        except ArithmeticError:
+            out.append("arith")
+        except Exception:
+            out.append("other")
+    return out
+
+def unmatched_handler_propagates():
+    try:
+        try:
+            1 / 0
+        except KeyError:
+            return "inner"
+    except ZeroDivisionError:
+        return "outer"
+
+def else_skipped_on_exception():
+    log = []
+    try:
+        try:
+            {}["k"]
+        except KeyError:
+            log.append("caught")
+        else:
+            log.append("else")
+        finally:
+            log.append("finally")
+    finally:
+        log.append("outer-finally")
+    return log
+
+def bare_reraise():
+    try:
+        try:
+            [].pop()
+        except IndexError:
+            raise
+    except Exception as e:
+        return type(e).__name__
+
+def exception_in_handler_replaces():
+    try:
+        try:
+            {}["k"]
+        except KeyError:
+            int("x")
+    except ValueError:
+        return "value"
+    except KeyError:
+        return "key"
+
+def finally_runs_on_return_and_break():
+    log = []
+    def f():
+        for i in range(3):
+            try:
+                if i == 1:
+                    return "ret"
+            finally:
+                log.append(i)
+    r = f()
+    return r, log
+
+def exception_name_unbound_after_handler():
+    e = "before"
+    try:
+        1 / 0
+    except ZeroDivisionError as e:
+        pass
+    try:
+        return e
+    except NameError:
+        return "unbound"
+
+def str_exception_message():
+    try:
+        raise ValueError("bad value")
+    except ValueError as err:
+        return str(err), err.args
+
+def isinstance_exception_hierarchy():
+    try:
+        {}["k"]
+    except Exception as e:
+        return isinstance(e, KeyError), isinstance(e, LookupError), isinstance(e, ValueError)
+
+def stop_iteration_from_next():
+    it = iter([1])
+    next(it)
+    try:
+        next(it)
+    except StopIteration:
+        return "stopped"
+
+def loop_variable_after_loop():
+    for i in range(3):
+        pass
+    return i
+
+def comprehension_scope_does_not_leak():
+    x = "outer"
+    _ = [x for x in range(3)]
+    return x
+
+def default_arg_evaluated_once_inner_loop():
+    fs = []
+    for n in range(2):
+        def f(acc=[]):
+            acc.append(n)
+            return acc
+        fs.append(f)
+    return fs[0](), fs[0](), fs[1]()
+
+def string_multiplication_and_in():
+    return "ab" in "cabd", "x" not in "abc", "a" * 0, "abc"[1], "abc"[-1], "abc"[::-1]
+
+def tuple_comparison_and_sorting():
+    return (1, 2) < (1, 3), sorted([(2, "a"), (1, "b"), (1, "a")]), max([(1, "x"), (1, "y")])
+
+def dict_views_and_items():
+    d = {"a": 1, "b": 2}
+    return sorted(d.items()), list(d.keys()), sum(d.values()), "a" in d, 1 in d, len(d)
+
+def nested_data_mutation_through_alias():
+    d = {"k": [1]}
+    v = d["k"]
+    v.append(2)
+    e = dict(d)
+    e["k"].append(3)
+    return d
+
+def float_int_equality_and_hash_keys():
+    d = {1: "int"}
+    d[1.0] = "float"
+    d[True] = "bool"
+    return d, 1 == 1.0, len(d)
+
+def abs_and_pow_and_divmod():
+    return abs(-3), abs(2.5), pow(2, 3), pow(2, -1), divmod(-7, 2), 2 ** 0.5 > 1.41
+
+def any_all_short_circuit_generators():
+    seen = []
+    def mark(v):
+        seen.append(v)
+        return v
+    r = any(mark(v) for v in [0, 1, 2])
+    return r, seen
 '''
 
 
